@@ -449,6 +449,11 @@ def _fact(ex, f):
         ex.spec_facts.append(f)
 
 
+@specfunc('ref_arity')
+def ref_arity(ex, st, ref):
+    return SV(_rec(ex, st, ref, 'RefStruct', '_len'), INT)
+
+
 @specfunc('n_children')
 def n_children(ex, st, ref):
     return SV(_kids(ex, st, ref)[1], INT)
